@@ -311,7 +311,11 @@ class Array:
         """Insert a new element into the Array at position i.
 
         """
-        i = min(i, len(self))  # Inserting beyond len of array inserts at the end (copying standard behaviour)
+        # Positions beyond either end insert at that end, and negative positions count back from the
+        # final item (not from the end of the data, which may have trailing bits) - copying standard behaviour.
+        if i < 0:
+            i = max(i + len(self), 0)
+        i = min(i, len(self))
         self.data.insert(self._create_element(x), i * self._dtype.length)
 
     def pop(self, i: int = -1) -> ElementType:
